@@ -1,6 +1,7 @@
 """Python-orchestration rules shared by several properties (dispatch, call
 binding, symmetrisation).  Built on E6 (pyflow)."""
 import ast
+import os
 import re
 
 from . import pyflow, pyxast
@@ -1257,3 +1258,94 @@ def check_geometry_closure(chk, rule, rel='compmech/conecyl/conecyl.py', cls='Co
            detail='' if not bad else 'an object that was rebuilt once keeps the derived radius of the previous angle / length: k0 (edge terms use r1), kG0 and the '
                                      'loads are computed for a geometry that is not the one defined now, and differ from those of a fresh object with the same definition',
            sample='%s.%s: 16 entry states, closure store on every non-raising path' % (cls, meth))
+
+
+# --------------------------------------------------------------------------
+# no compute-once guard on derived state (seventh wave: C20_w7A, C17_w7A, C18_w7A)
+
+# (class, attribute): stores of self.<attribute> that are control-dependent on a test reading self.<attribute> itself, as
+# confirmed by reading the pinned tree.  All of them fill in a default for, or normalise, an attribute of the user-facing
+# definition that the user left unset / gave in another form; none caches a quantity derived from other definition attributes
+# that can be edited later -- except MLA (see DESIGN 9.10: candidate, not examined further).
+SELF_GUARDED_OK = {
+    ('ConeCyl', 'H'): 'alternative definition H | L | (r1, r2)',
+    ('ConeCyl', 'L'): 'alternative definition H | L',
+    ('ConeCyl', 'r2'): 'alternative definition r1 | r2 (refresh of the other radius: R16.9)',
+    ('ConeCyl', 'laminaprops'): 'default: one laminaprop for every ply',
+    ('ConeCyl', 'plyts'): 'default: one plyt for every ply',
+    ('ConeCyl', 'Nxxtop'): 'normalisation of a scalar / missing load definition to the coefficient vector',
+    ('ConeCyl', 'MLA'): 'alternative definition MLA | xiLA (computed once from xiLA*Fc; candidate staleness, DESIGN 9.10)',
+    ('ConeCyl', 'Fc'): 'default reference load of lb / eigen when no load is defined (R05.7)',
+    ('ConeCyl', 'pdC'): 'default of an unset flag',
+    ('StiffPanelBay', 'model'): 'default taken from the first panel',
+    ('StiffPanelBay', 'Mach'): 'regularisation of Mach <= 1 (R19.3)',
+    ('Panel', 'model'): 'default model by geometry',
+    ('Panel', 'laminaprops'): 'default: one laminaprop for every ply',
+    ('Panel', 'plyts'): 'default: one plyt for every ply',
+    ('Panel', 'Mach'): 'regularisation of Mach <= 1 (R19.3)',
+    ('MatLamina', 'nu21'): 'reciprocal relation fills the Poisson ratio that was not given',
+    ('MatLamina', 'nu12'): 'reciprocal relation fills the Poisson ratio that was not given',
+}
+
+
+def check_no_compute_once(chk, rule):
+    """A store self.X = <expression that reads something> that only runs when a test *reading self.X itself* allows it is a
+    compute-once cache: after the first call X is not refreshed when the attributes its right-hand side reads are edited,
+    so the next result depends on the call history (and differs from that of a fresh object with the same definition).
+    Every such store in the package must be one of the confirmed default-filling instances of SELF_GUARDED_OK."""
+    root = repo_path('compmech')
+    found = {}
+    bad = []
+    nfiles = 0
+    for dp, dn, fns in os.walk(root):
+        if os.sep + 'tests' in dp:
+            continue
+        for f in sorted(fns):
+            if not f.endswith('.py'):
+                continue
+            path = os.path.join(dp, f)
+            rel = os.path.relpath(path, REPO)
+            try:
+                tree = ast.parse(open(path, encoding='utf-8', errors='replace').read())
+            except SyntaxError:
+                continue
+            nfiles += 1
+            for cls in [n for n in ast.walk(tree) if isinstance(n, ast.ClassDef)]:
+                for fn in [n for n in cls.body if isinstance(n, ast.FunctionDef)]:
+                    def walk(stmts, tests):
+                        for s in stmts:
+                            if isinstance(s, ast.If):
+                                walk(s.body, tests + [s.test])
+                                walk(s.orelse, tests + [s.test])
+                            elif isinstance(s, (ast.For, ast.While, ast.With, ast.Try)):
+                                for fld in ('body', 'orelse', 'finalbody'):
+                                    walk(getattr(s, fld, None) or [], tests)
+                                for h in getattr(s, 'handlers', []):
+                                    walk(h.body, tests)
+                            elif isinstance(s, ast.Assign):
+                                if isinstance(s.value, ast.Constant):
+                                    continue
+                                for tg in s.targets:
+                                    if isinstance(tg, ast.Attribute) and isinstance(tg.value, ast.Name) and tg.value.id == 'self':
+                                        for te in tests:
+                                            reads = {a.attr for a in ast.walk(te) if isinstance(a, ast.Attribute)
+                                                     and isinstance(a.value, ast.Name) and a.value.id == 'self'}
+                                            if tg.attr in reads:
+                                                key = (cls.name, tg.attr)
+                                                found[key] = found.get(key, 0) + 1
+                                                if key not in SELF_GUARDED_OK:
+                                                    bad.append((rel, '%s.%s' % (cls.name, fn.name), s.lineno, tg.attr, norm(te)[:80], norm(s.value)[:60]))
+                                                break
+                    walk(fn.body, [])
+    chk.floor(rule + ' confirmed default-filling stores found', len([k for k in found if k in SELF_GUARDED_OK]), 12)
+    chk.ob(rule, True, 'compmech', '', 'self-guarded stores inventoried', sample='%d files, %d self-guarded attribute stores, %d confirmed kinds' % (nfiles, sum(found.values()), len(SELF_GUARDED_OK)))
+    seen = set()
+    for rel, func, line, attr, test, rhs in bad:
+        if (func, attr) in seen:
+            continue
+        seen.add((func, attr))
+        chk.ob(rule, False, rel, func, 'compute-once guard on self.' + attr, line=line,
+               expected='self.%s re-derived on every call (or guarded by a test that does not read self.%s)' % (attr, attr),
+               got='self.%s = %s only if %s' % (attr, rhs, test),
+               detail='self.%s is kept from an earlier call when the attributes its right-hand side reads were edited in between: the next result '
+                      'depends on the call history and differs from that of a freshly defined object' % attr)
